@@ -347,7 +347,14 @@ def chk_items(ctx, case):
     masks = case["masks"]
     omasks = case.get("objdict_masks")
     specs = [case["item"]] if "item" in case else ALPHABETS["full"]
-    e = Experiment(schedules=[], **exp_kwargs(masks))
+    try:
+        e = Experiment(schedules=[], **exp_kwargs(masks))
+    except Exception as ex:
+        ctx.count("items", key=("ctor", json.dumps(masks)), label="ctor-rejected", nontrivial=True)
+        ctx.violation("items", "Experiment.__init__", "rejects-valid-object-lists",
+                      "Experiment(schedules=[], <lists of objects / None placeholders of sizes %s>) raised %s: %s"
+                      % ([len(x) for x in masks], classify_exc(ex)[0], str(ex)[:120]), {"masks": masks})
+        return
     fn = getattr(e, "_validate_schedule_item", None)
     if fn is None:
         ctx.note_once("Experiment._validate_schedule_item no longer exists: item-level comparison skipped")
@@ -492,6 +499,23 @@ def sub_schedule(ctx):
     elif getattr(ctx, "boost", False):
         for masks in big:
             cases.append({"masks": masks, "alpha": "medium", "len": 3})
+    # LONG schedules (lengths 6..12, beyond the exhaustive word lengths): random well-formed ones and single-item mutations
+    masks = [[1], [1, 1], [1, 1], [1, 1]]
+    mids = [["gate", 0], ["gate", 1], ["mprocess", 0], ["mprocess", 1]]
+    junk = [["state", 0], ["povm", 0], ["povm", 1], ["gate", 2], ["mprocess", -1], None, ["gate", True], ["Gate", 0], ["state", 0, 0]]
+    longs = []
+    for _ in range(ctx.n(150, 1500)):
+        L = rng.randint(6, 12)
+        povm_at = rng.choice([None, L - 1]) if rng.random() < 0.8 else rng.randint(1, L - 1)
+        sch = [["state", 0]] + [rng.choice(mids) for _ in range(L - 1)]
+        if povm_at is not None:
+            sch[povm_at] = ["povm", rng.randint(0, 1)]
+        longs.append([sch])
+        mut = [list(x) if isinstance(x, list) else x for x in sch]
+        mut[rng.randint(0, L - 1)] = rng.choice(junk)
+        longs.append([mut])
+    for off in range(0, len(longs), 500):
+        cases.append({"masks": masks, "lists": longs[off:off + 500]})
     ctx.sample("schedule", cases[3])
     ctx.run_cases("schedule", chk_schedule, cases)
     ctx.note("schedule: %d (configuration, alphabet, length) sweeps, every word enumerated" % len(cases))
@@ -607,13 +631,45 @@ def chk_setters(ctx, case):
         after = {a: getattr(e, a) for a in before}
         for a in before:
             expect_new = (a == name and impl[0] == "ok")
-            if expect_new and after[a] is not newv:
+            # compared by CONTENT (element identity): a getter that hands out a copy of the stored list is not a violation
+            if expect_new and not same_list(after[a], newv):
                 ctx.violation("setters", site, "accepted-but-not-assigned", "%s accepted the new value but the attribute was not replaced" % site, rep)
                 return
-            if not expect_new and after[a] is not before[a]:
+            if not expect_new and not same_list(after[a], before[a]):
                 ctx.violation("setters", site, "state-changed-on-%s" % ("reject" if impl[0] != "ok" else "other-attribute"),
                               "attribute %s changed although %s" % (a, "the assignment was rejected" if impl[0] != "ok" else "another attribute was assigned"), rep)
                 return
+        if n == len(ops) - 1 or impl[0] == "ok":
+            if not check_copy(ctx, e, rep):
+                return
+
+
+def same_list(a, b):
+    if a is b:
+        return True
+    try:
+        return len(a) == len(b) and all((x is y) or (type(x) in (list, tuple, str) and x == y) for x, y in zip(a, b))
+    except TypeError:
+        return False
+
+
+def check_copy(ctx, e, rep):
+    """Experiment.copy() of a validated experiment: goes through the validating constructor, so it must be accepted, and must
+    hold the same objects and schedules (in lists of its own — only noted)"""
+    try:
+        c = e.copy()
+    except Exception as ex:
+        ctx.violation("setters", "Experiment.copy", "copy-rejects-valid-experiment",
+                      "copy() of an accepted experiment raised %s" % classify_exc(ex)[0], rep)
+        return False
+    ctx.count("setters", key=("copy", json.dumps(rep)), label="copy", nontrivial=True)
+    for a in ("states", "povms", "gates", "mprocesses", "schedules"):
+        if not same_list(getattr(c, a), getattr(e, a)):
+            ctx.violation("setters", "Experiment.copy", "copy-differs", "copy().%s differs from the original's" % a, rep)
+            return False
+        if getattr(c, a) is getattr(e, a):
+            ctx.note_once("Experiment.copy() shares the list object of .%s with the original (aliasing; outside the property)" % a)
+    return True
 
 
 def gen_setter_cases(ctx):
@@ -1033,8 +1089,8 @@ def regen_validators(ctx):
     src = open(equiv).read()
     src_nc = re.sub(r"\(\*.*?\*\)", " ", src, flags=re.S)
     thms = re.findall(r"^\s*Theorem\s+([\w']+)", src_nc, flags=re.M)
-    ctx.theorems = list(ctx.theorems) + [t for t in thms if t not in ctx.theorems]
-    ctx.obligations += len(thms)
+    upd = {"thms": thms, "axioms": {}, "discharged": 0}
+    ctx._regen_update = upd      # applied by run() after Props/C20.v has been checked (this function runs in a thread)
     r = subprocess.run([sys.executable, os.path.join(V, "gen", "c20_py2coq.py"), os.environ.get("VERIF_REPO", "/repo"), gen_v],
                        capture_output=True, text=True, timeout=120)
     if r.returncode != 0:
@@ -1060,8 +1116,8 @@ def regen_validators(ctx):
     if len(blocks) != len(thms) or bad:
         return False, {"theorem": thms[0], "error": "assumption gate on regenerated proofs: %d blocks / %d theorems, disallowed %s" % (len(blocks), len(thms), bad)}
     for t, (closed, axs) in zip(thms, blocks):
-        ctx.axioms[t] = "closed" if closed else sorted(set(axs))
-    ctx.discharged += len(thms)
+        upd["axioms"][t] = "closed" if closed else sorted(set(axs))
+    upd["discharged"] = len(thms)
     return True, {}
 
 
@@ -1076,8 +1132,24 @@ def run(ctx):
                 "distinct = distinct (configuration, schedule list / op sequence)")
     prep(ctx)
     # flow.standard_run with this property's own translator tie (flow.regen_check is bound to gen/py2coq.py)
+    # Props/C20.v and the regenerated-model proofs are compiled concurrently (two coqc processes)
+    import threading
+    box = {}
+    def _regen():
+        try:
+            box["r"] = regen_validators(ctx)
+        except Exception as ex:      # a crash of the tie is a broken tie, never a silent pass
+            box["r"] = (False, {"theorem": None, "error": "regen_validators crashed: %r" % (ex,)})
+    th = threading.Thread(target=_regen)
+    th.start()
     ok, info = runner.check_props(ctx)
-    ok2, info2 = regen_validators(ctx)
+    th.join()
+    ok2, info2 = box["r"]
+    upd = getattr(ctx, "_regen_update", {"thms": [], "axioms": {}, "discharged": 0})
+    ctx.theorems = list(ctx.theorems) + [t for t in upd["thms"] if t not in ctx.theorems]
+    ctx.obligations += len(upd["thms"])
+    ctx.axioms.update(upd["axioms"])
+    ctx.discharged += upd["discharged"]
     if not ok2:
         ok, info = False, info2
         ctx.boost = True          # widen the sweeps: look harder for a concrete failing input
